@@ -6,9 +6,9 @@ using namespace gmlc::libguarded;
 using vrf::Cell;
 using vrf::Win;
 
-enum Scen { LR_MODIFY, COW_COMMIT, COW_CANCEL, RCU_PUSH_FRONT, RCU_PUSH_BACK, RCU_EMPLACE_FRONT, RCU_EMPLACE_BACK, RCU_ERASE, NSCEN };
+enum Scen { LR_MODIFY, COW_COMMIT, COW_CANCEL, RCU_PUSH_FRONT, RCU_PUSH_BACK, RCU_EMPLACE_FRONT, RCU_EMPLACE_BACK, RCU_ERASE, RCU_ERASE_HEAD, RCU_ERASE_TAIL, NSCEN };
 static const char* const SCENN[] = {"lr_guarded::modify", "cow_guarded lock+commit", "cow_guarded lock+cancel", "rcu push_front", "rcu push_back",
-                                    "rcu emplace_front", "rcu emplace_back", "rcu erase"};
+                                    "rcu emplace_front", "rcu emplace_back", "rcu erase (middle)", "rcu erase (head)", "rcu erase (tail)"};
 
 struct ReadStats {
     std::atomic<uint64_t> reads{0}, blocking_steps{0};
@@ -61,9 +61,10 @@ static Result run_one(long ridx, int scen, bool early, uint64_t freeze_at, int n
         writer_started.store(1, std::memory_order_relaxed);
         if (is_rcu) {
             rcu::Fixture<Cell>::WH h(fx.g->lock_write());
-            if (scen == RCU_ERASE) {
+            if (scen == RCU_ERASE || scen == RCU_ERASE_HEAD || scen == RCU_ERASE_TAIL) {
                 auto it = h->begin();
-                ++it;  // the middle element (the early reader is parked on it)
+                int skip = scen == RCU_ERASE ? 1 : scen == RCU_ERASE_HEAD ? 0 : 2;  // 3 elements: middle / head / tail
+                for (int i = 0; i < skip; i++) ++it;
                 vrf::freeze_arm();
                 h->erase(it);
                 vrf::freeze_disarm();
